@@ -2,7 +2,7 @@ CONSTANTS
   Groups = {1, 2, 3}
   Vols = {0, 2, 12}
   MaxIntervals = 3
-  Targets = {5}
+  Targets = {6}
   Ttl = 8
   Depth = 3
   OnlyEnds = FALSE
